@@ -352,7 +352,7 @@ func (d *DynTypes) ofResult(fn *ssa.Function, idx int, excl bool, depth int) Typ
 			out.Top = true
 			continue
 		}
-		if excl && ei >= 0 && ei < len(ret.Results) && d.m.ProvablyNonNilError(RetVal(ret, ei), ret.Block()) {
+		if excl && ei >= 0 && ei < len(ret.Results) && d.m.RetNonNil(ret, ei) {
 			continue
 		}
 		// pass-through `return f(x)`: the caller's error is the callee's error, so the exclusion carries over
